@@ -121,6 +121,9 @@ def grid(asset, rows, cfee, bad=None, order=("IN", "OUT", "INTRA"), gap=0):
                     row[m["spot_price"]] = "12,5"
                 elif k == "other-asset":
                     row[m["asset"]] = [x for x in ALL_ASSETS if x != asset][0]
+                elif k.startswith("received-exceeds-sent:") and t == "INTRA":
+                    # more received than sent, by an excess as small as dust (the documented rule has no tolerance)
+                    row[m["crypto_received"]] = fval(r[7] + int(k.split(":")[1]))
             g.append(row)
         g.append(["TABLE END"] + [None] * (W - 1))
         for _ in range(gap):
@@ -204,7 +207,34 @@ def gen(rng, prop=None):
     _GAP["n"] = 0
     c = _gen(rng, prop)
     c.setdefault("gap", _GAP["n"])
+    if c.get("fault") is None and c.get("variant") is None and rng.random() < (0.3 if prop == "C16" else 0.08 if prop in ("C06", "C10", "C13", "C14", "C19", "C20") else 0.0):
+        day_boundary(rng, c)
     return c
+
+
+def day_boundary(rng, case):
+    """the whole history in one non-UTC zone, moved as a block (order, balances and validity are untouched) so that one taxable event falls on a
+    local calendar day that differs from its UTC day, with the window ending (or starting) on that very local day"""
+    evs = [(a, r) for a, rows in case["assets"].items() for r in rows if r[0] != "IN" or r[4] in ("INTEREST", "MINING", "STAKING", "INCOME", "WAGES", "AIRDROP", "HARDFORK")]
+    if not evs:
+        return
+    off = rng.choice([-12 * 3600, -9 * 3600, -5 * 3600, 9 * 3600, 14 * 3600, 5 * 3600 + 1800])
+    a, e = rng.choice(evs)
+    tod = (e[2] // 10**6) % 86400
+    target = rng.randrange(0, -off) if off < 0 else rng.randrange(86400 - off, 86400)      # UTC time of day at which the local day is the other one
+    delta = ((target - tod) % 86400) * 10**6
+    for rows in case["assets"].values():
+        for r in rows:
+            r[2] += delta
+            r[3] = off
+    d = ldate(e[2], e[3])
+    if case["entry"] == "jp" or rng.random() < 0.7:
+        case["to"], case["from"] = d.isoformat(), (None if case["entry"] == "jp" or rng.random() < 0.6 else (d - timedelta(days=rng.choice([0, 1, 40, 400]))).isoformat())
+    else:
+        case["from"], case["to"] = d.isoformat(), (None if rng.random() < 0.6 else (d + timedelta(days=rng.choice([0, 1, 40, 400]))).isoformat())
+    if case.get("sched"):
+        # the schedule was laid out for the old local years: keep it, it stays a valid schedule (years >= 1970, any years)
+        pass
 
 
 def _gen(rng, prop=None):
@@ -280,8 +310,8 @@ def _gen(rng, prop=None):
     # order of the three tables in every sheet of the run (the documented format allows any)
     torder = ["IN", "OUT", "INTRA"] if rng.random() < 0.5 else rng.choice([["IN", "INTRA", "OUT"], ["OUT", "IN", "INTRA"], ["OUT", "INTRA", "IN"], ["INTRA", "IN", "OUT"], ["INTRA", "OUT", "IN"]])
     # blank rows between the tables (room left under a table to append rows later: the documented format allows any number)
-    if rng.random() < 0.14:
-        _GAP["n"] = rng.choice([1, 3, 31, 32, 33, 49, 50, 51, 64, 130])
+    if rng.random() < (0.45 if prop in ("C03", "C11", "C17") else 0.14):
+        _GAP["n"] = rng.choice([1, 3, 31, 32, 33, 49, 50, 51, 64, 130, 260])
     for a in ALL_ASSETS[:n_assets]:
         c = P.gen(rng, "reports") if prop != "C05" else P.gen(rng, "C05")
         if prop == "C05":
@@ -426,7 +456,7 @@ def _gen(rng, prop=None):
         case["fresh"] = True
     if prop == "C18" and rng.random() < 0.45:
         # failing runs are audited too; the faults that end on the "unexpected error" path or involve the bytes of an input file are favoured
-        case["fault"] = rng.choice(FAULTS + ["config-with-bom", "ini-duplicate-option", "input-not-ods"] * 3)
+        case["fault"] = rng.choice(FAULTS + ["config-with-bom", "ini-duplicate-option", "input-not-ods", "config-json", "config-json"] * 3)
     if prop == "C18" and rng.random() < 0.3:
         # every environment variable the source reads is a switch of the program: the write set must stay confined with each of them set
         sw = [v for v in env_switches() if v not in ("CURRENCY_CODE", "LONG_TERM_CAPITAL_GAINS")]
@@ -451,6 +481,10 @@ def _gen(rng, prop=None):
             rws = assets[a]
             r = max(rws, key=lambda x: x[2]) if rng.random() < 0.5 else rng.choice(rws)
             case["badcell"] = [a, r[1], rng.choice(["unknown-exchange", "unknown-holder", "negative-amount", "text-number", "other-asset"])]
+            xs = [x for x in rws if x[0] == "INTRA" and x[7] < 10**14]
+            if xs and rng.random() < 0.35:
+                r = rng.choice(xs)
+                case["badcell"] = [a, r[1], "received-exceeds-sent:%d" % rng.choice([1, 2000, 30000000, 400000000, 500000000, 2000000000, 10**11])]
             if rng.random() < 0.6:
                 case["to"] = (ldate(r[2], r[3]) - timedelta(days=rng.choice([1, 1, 30, 400]))).isoformat()
                 case["from"] = None if rng.random() < 0.7 else (date.fromisoformat(case["to"]) - timedelta(days=500)).isoformat()
@@ -469,7 +503,7 @@ def _gen(rng, prop=None):
 FAULTS = ["from-after-to", "unknown-asset-option", "unknown-language", "plugin-flag", "method-twice", "unknown-method-in-section", "method-not-allowed",
           "ini-missing-section", "ini-duplicate-column", "ini-bad-header-name", "ini-non-integer-column", "ini-empty-assets", "ini-unknown-section",
           "asset-without-sheet", "input-not-ods", "config-missing", "bad-date", "ini-duplicate-option", "config-with-bom",
-          "ini-negative-column", "ini-duplicate-asset", "ini-section-twice", "ini-early-year"]
+          "ini-negative-column", "ini-duplicate-asset", "ini-section-twice", "ini-early-year", "config-json"]
 KNOWN_FAULTS = {"jp-from-and-to": "F8", "unknown-generator": "F14"}     # genuine defects recorded as known findings; generated only by their witnesses
 
 
@@ -530,6 +564,12 @@ def ini_bytes(case):
         # configparser itself refuses a repeated option (DuplicateOptionError, not an RP2Error): the run ends on the "unexpected error" path
         ini = ini.replace("[in_header]\n", "[in_header]\nnotes = 40\nnotes = 40\n") if "notes" not in LAY["IN"] else ini.replace("[in_header]\n", f"[in_header]\nnotes = {LAY['IN']['notes']}\n")
     data = ini.encode()
+    if f == "config-json":
+        # the deprecated JSON format of the configuration file (documented: refused, with a pointer to rp2_config) — the only path on
+        # which the configuration is validated against the JSON schema
+        j = {"in_header": {k: v for k, v in LAY["IN"].items()}, "out_header": {k: v for k, v in LAY["OUT"].items()},
+             "intra_header": {k: v for k, v in LAY["INTRA"].items()}, "assets": assets, "exchanges": list(EXS), "holders": list(HOS)}
+        data = json.dumps(j, indent=2).encode()
     if f == "config-with-bom":
         data = b"\xef\xbb\xbf" + data        # a UTF-8 byte order mark: configparser finds no section header on the first line
     return data
@@ -756,8 +796,8 @@ def _collect_files(case, out, files, names, a2c, r):
                 pass
     for f in files:
         p = os.path.join(out, f)
-        if not f.endswith(".ods"):
-            continue
+        if not f.endswith(".ods") or f.startswith(("~$", ".~lock.")):
+            continue            # not a report: what an office suite leaves next to one (the stale-output variant puts such files there)
         if not r["content_checked"]:
             # translated sheet and table names: only check that the file is a readable spreadsheet with data in it
             try:
@@ -800,6 +840,14 @@ def run_impl(case, hashseed=None, stale=False):
         open(os.path.join(d, "out", "unrelated.txt"), "w").write("keep me")
         m = (case["sched"] and (list(case["sched"].values())[0] if len(case["sched"]) == 1 else "mixed")) or case["method"] or country_facts(case["entry"])["default_method"]
         open(os.path.join(d, "out", f"{case['prefix']}{m}_rp2_full_report.ods"), "w").write("stale garbage")
+        # ... and, for every report of this run, what an office suite leaves next to a file that is (or was) open: a lock file, a backup copy
+        # and a temporary file; sometimes an older version of the report itself
+        for k_, name in enumerate(expected_files(case)):
+            open(os.path.join(d, "out", f".~lock.{name}#"), "w").write(",user,host,01.01.2024 10:00,file:///home/user/.config/libreoffice/4;")
+            open(os.path.join(d, "out", name + ".bak"), "w").write("older copy")
+            open(os.path.join(d, "out", "~$" + name), "w").write("office temp")
+            if k_ % 2 == 1 and not os.path.exists(os.path.join(d, "out", name)):
+                open(os.path.join(d, "out", name), "w").write("report of an earlier run")
     link_target = None
     if case.get("variant") == "report-is-symlink":
         # the output directory already holds the name of a report as a symbolic link to a file kept elsewhere: the run may replace the
@@ -822,7 +870,10 @@ def run_impl(case, hashseed=None, stale=False):
     r["inputs_unchanged"] = h0 == (sha(os.path.join(d, "in.ods")), sha(os.path.join(d, "in.ini")))
     r["dir"] = d
     if stale:
-        r["files"] = [f for f in r["files"] if f != "unrelated.txt"]
+        r["files"] = [f for f in r["files"] if f != "unrelated.txt" and not f.startswith((".~lock.", "~$")) and not f.endswith(".bak")]
+        if res["exit"] != 0:
+            # a failing run writes nothing: what is left of the earlier run's reports is not its output
+            r["files"] = [f for f in r["files"] if open(os.path.join(d, "out", f), "rb").read() not in (b"report of an earlier run", b"stale garbage")]
         r["stale_kept"] = os.path.exists(os.path.join(d, "out", "unrelated.txt")) and open(os.path.join(d, "out", "unrelated.txt")).read() == "keep me"
     return r
 
@@ -1186,7 +1237,7 @@ def oracle_c17(case, res, guard=True):
         if r2.get("stale_kept") is False:
             return "an unrelated file in the output directory was modified or removed"
         other = canon(r2)
-        what = "a run into an output directory holding a stale report and an unrelated file"
+        what = "a run into an output directory holding reports of an earlier run with their lock / backup / temporary files and an unrelated file"
     elif v == "hashseed":
         a = canon(run_subprocess(case, 1))
         for hs in (2, 3, 4):
